@@ -172,11 +172,43 @@ def run(repo, tier):
     run_forward(repo, res, MODS)
     run_axis(repo, res, MODS)
     a1_collect(repo, res, modules={'photutils.background.background_2d', 'photutils.background.interpolators', 'photutils.background.core'})
-    from .common import run_nonfinite
+    from .common import run_nonfinite, run_scale_free, guard_only
     run_nonfinite(repo, res, MODS)
+    run_scale_free(repo, res, MODS)
+    # the clip of the zoomed map to the range of the mesh depends on `clip` alone
+    zi = repo.method('photutils.background.interpolators.BkgZoomInterpolator', '__call__')
+    clips = [c for c in SP.find_calls(zi.node, 'clip')]
+    if len(clips) != 1:
+        raise AnalysisError('vanished anchor: BkgZoomInterpolator.__call__ np.clip call')
+    guard_only(res, 'GUARD', zi, clips[0], {'self.clip'}, 'the clip of the interpolated map to [min, max] of the mesh',
+               'with clip=True the full map can leave the range of the mesh (spline overshoot; negative RMS)')
+    expect_stmt(res, 'SPEC', zi, nf_text('np.clip(result, minval, maxval, out=result)'), 'map clipped to the mesh range')
+    expect_stmt(res, 'SPEC', zi, 'minval = ' + nf_text('np.min(data)'), 'lower clip bound = minimum of the mesh')
+    expect_stmt(res, 'SPEC', zi, 'maxval = ' + nf_text('np.max(data)'), 'upper clip bound = maximum of the mesh')
+    # selective filter: the boxes to filter are chosen from the BACKGROUND mesh for both meshes
+    sf = repo.method(B2D, '_selective_filter')
+    cmps = [c for c in ast.walk(sf.node) if isinstance(c, ast.Compare) and 'filter_threshold' in unparse(c, 0)]
+    if len(cmps) != 1:
+        raise AnalysisError('vanished anchor: Background2D._selective_filter threshold comparison')
+    from ..expr import Inliner
+    lhs = cmps[0].left
+    src = unparse(lhs, 0)
+    if isinstance(lhs, ast.Name):
+        defs = [a for a in ast.walk(sf.node) if isinstance(a, ast.Assign) and len(a.targets) == 1
+                and isinstance(a.targets[0], ast.Name) and a.targets[0].id == lhs.id]
+        if len(defs) == 1:
+            src = unparse(defs[0].value, 0)
+    ok = '_bkg_stats' in src and isinstance(cmps[0].ops[0], ast.Gt) and nf(cmps[0].comparators[0]) == 'self.filter_threshold'
+    res.oblige('SPEC', '_selective_filter selects the boxes whose BACKGROUND value exceeds filter_threshold', ok, nontrivial=True,
+               sample={'compared': src})
+    if not ok:
+        res.add(Finding('SPEC', sf.fullname, 'selective filter selection', f'{sf.module.relpath}:{cmps[0].lineno}',
+                        f'Background2D._selective_filter compares `{src}` with filter_threshold: the boxes to filter are documented to be '
+                        f'those whose background (self._bkg_stats) exceeds it, for the background and the RMS mesh alike', {}))
     res.floor('LP4', 9)
     res.floor('MIRROR', 2)
     res.floor('SIB', 20)
     res.floor('DEADSTORE', 100)
     res.floor('L3', 8)
+    res.floor('SCALE', 40)
     return res
